@@ -12,7 +12,7 @@ import (
 
 // Run is the domain entry point.
 func Run(c *corr.Ctx) {
-	c.Rule("per codec (klv, mpeg1video, mpegts, mjpeg): corpus of recorded / repaired failures first (KLV output aliasing, KLV unbounded growth, KLV multi-item units, MPEG-1 video endless fragments and overflow resynchronisation, M-JPEG Q-factor tables and 24-bit offsets); exhaustive size sweeps around every aggregation / fragmentation threshold for small payload limits; round trips of 1..3 consecutive valid frames (sizes within ±8 of k·limit, limits from the smallest workable value: klv 4, mpeg1video 5, mpegts 188, mjpeg 77; initial sequence numbers incl. wrap inside the run); fault streams (drop / duplicate / swap on 3..8 frame streams); hostile streams (random, grammar-aware, mutated, shuffled, endless fragments); non-trivial = multi-packet or multi-frame or faulted; distinct = distinct op-line sequences")
+	c.Rule("per codec (klv, mpeg1video, mpegts, mjpeg): corpus of recorded / repaired failures first (KLV output aliasing, KLV unbounded growth, KLV multi-item units, MPEG-1 video endless fragments and overflow resynchronisation, M-JPEG Q-factor tables and 24-bit offsets); exhaustive size sweeps around every aggregation / fragmentation threshold for small payload limits; long runs (one Encode call of > 256 packets — thorough: > 65536, M-JPEG scan data up to 2^24 — followed by two more calls); round trips of 1..3 consecutive valid frames (sizes within ±8 of k·limit, limits from the smallest workable value: klv 4, mpeg1video 5, mpegts 188, mjpeg 77; initial sequence numbers incl. wrap inside the run); fault streams (drop / duplicate / swap on 3..8 frame streams); hostile streams (random, grammar-aware, mutated, shuffled, endless fragments); non-trivial = multi-packet or multi-frame or faulted; distinct = distinct op-line sequences")
 	specs := []*cu.Spec{Klv, Mpeg1Video, MpegTs, Mjpeg}
 	if c.Replay != nil {
 		var probe struct {
@@ -38,6 +38,7 @@ func Run(c *corr.Ctx) {
 	tsSweep(c)
 	mjpegSweep(c)
 	c.Flush()
+	longRuns(c)
 	for _, s := range specs {
 		cu.RunAll(c, s)
 	}
